@@ -962,7 +962,10 @@ def _alter_files(
             keep_content = False
             if wt_kind == "file" and (backups or target_kind is None):
                 wt_sha1 = working_tree.get_file_sha1(wt_path)
-                if merge_modified.get(wt_path) != wt_sha1:
+                # wt_sha1 can be None (the dirstate does not hash an entry it
+                # recorded with another kind); that never means "unchanged since
+                # the last merge".
+                if wt_sha1 is None or merge_modified.get(wt_path) != wt_sha1:
                     # acquire the basis tree lazily to prevent the
                     # expense of accessing it when it's not needed ?
                     # (Guessing, RBC, 200702)
@@ -972,10 +975,14 @@ def _alter_files(
                     basis_inter = InterTree.get(basis_tree, working_tree)
                     basis_path = basis_inter.find_source_path(wt_path)
                     if basis_path is None:
-                        if target_kind is None and not target_versioned:
-                            keep_content = True
+                        # Not in the basis, so it cannot be unchanged from
+                        # it (and it was not written by a merge or revert,
+                        # see the merge_modified check above).
+                        keep_content = True
                     else:
-                        if wt_sha1 != basis_tree.get_file_sha1(basis_path):
+                        if wt_sha1 is None or wt_sha1 != basis_tree.get_file_sha1(
+                            basis_path
+                        ):
                             keep_content = True
             if wt_kind is not None:
                 if not keep_content:
